@@ -17,7 +17,7 @@ def gen(rng, cls, **kw):
 def run(tier, seed):
     # the generator chooses the pair itself; `classes` only sets the number of draws
     return opscheck.run_property(
-        "C08", tier, seed, design=opscheck.design_ops("C08", None), clauses_for=lambda cfg: CLAUSES, n_quick=5, n_thorough=40,
+        "C08", tier, seed, design=opscheck.design_ops("C08", None), clauses_for=lambda cfg: CLAUSES, n_quick=12, n_thorough=60,
         gen_kw=[{}], generator=gen, observe=symdrive.observe, classes=symdrive.PAIR_KINDS,
         sig_extra=lambda cl, e, v: {"pair": e["cfg"]["label"].split(":")[0],
                                     **({"conv": e["cfg"]["conv"]} if cl == "C08_Solve" else {})},
